@@ -937,9 +937,17 @@ class Table:
         # Read through OUR backend rather than pyarrow's S3 filesystem (#54).
         with data_file_manager.open_parquet_source(data_file.file_path) as src:
             if compute_expr is not None:
-                # pyarrow applies `filters` against all needed columns during the
-                # scan and returns only `columns`, so pushdown is correct here.
-                return pq.read_table(src, columns=columns, filters=compute_expr)
+                # Filter in memory, exactly like the verified path above. Handing
+                # the expression to pq.read_table(filters=...) lets pyarrow skip
+                # row groups by their min/max statistics, which ignore NaN (and
+                # the sign of zero): `x != 5.0` over a row group [NaN, 5.0] was
+                # "proved" empty and the NaN row silently dropped, so this path
+                # returned fewer rows than every other scan API.
+                table = pq.read_table(src)
+                table = table.filter(compute_expr)
+                if columns is not None:
+                    table = table.select(columns)
+                return table
             return pq.read_table(src, columns=columns)
 
     def _scan_table(
